@@ -414,6 +414,31 @@ func checkC20(p *Prog, r *Report) {
 	// ---- R20.7 a remembered nomination is applied as it would have been on arrival ---------------------------
 	r.Rule("R20.7", "When the triggered check of a pair that was nominated before it was valid succeeds, the controlled agent selects it exactly when nothing is selected, or another pair is selected and (priorities need not be checked or the selected pair's priority is not greater): an accepted renomination of an equal-priority pair is not dropped (table shared with C03 R3.1; that the nomination value is ignored on this path is the known finding F7).", 4)
 	checkControlledDeferredTable(p, r)
+
+	// ---- R20.8 an outstanding nomination stays answerable ------------------------------------------------------
+	r.Rule("R20.8", "The list of outstanding transactions is changed only by the sender (append), the expiry filter, the matching response (removal of the matched entry) and the wipes (Restart, Failed, construction): nothing else forgets an outstanding request, so the success response to any nomination that was sent and has not expired — an older renomination included — is still matched and acted upon by the controlling agent when the controlled agent accepted it.", 4)
+	{
+		allowed := map[string]string{
+			"Agent.sendBindingRequest":               "records the request sent",
+			"Agent.invalidatePendingBindingRequests": "expiry",
+			"Agent.handleInboundBindingSuccess":      "removes the matched entry",
+			"Agent.Restart$1":                        "wipe on restart",
+			"Agent.updateConnectionState":            "wipe on Failed",
+			"Agent.updateConnectionState$1":          "wipe on Failed",
+			"createAgentBase":                        "construction",
+			"newAgentFromConfig":                     "construction",
+			"NewAgentWithOptions":                    "construction",
+		}
+		n := 0
+		for f, nodes := range p.WritersOf("Agent.pendingBindingRequests") {
+			n++
+			_, ok := allowed[f.Name]
+			r.Check(ok, "writer of the outstanding-transaction list: "+f.Name, p.Pos(nodes[0].Pos()), "sender, expiry, matched response, wipe", f.Name+" changes the list of outstanding transactions: a request it drops can still be accepted by the peer, whose success response then no longer matches anything — the two agents disagree about the nomination that was accepted last")
+		}
+		if n < 4 {
+			r.Fail("writers of the outstanding-transaction list", "agent.go", "fewer than 4 writers found (rule instance lost)")
+		}
+	}
 }
 
 func rowKey(sp *SemPath, names ...string) string {
